@@ -48,8 +48,7 @@ def evaluate(case):
     kw = build(cfg)
     m = AquaCropModel(**kw)
     try:
-        with init_guard():
-            m.run_model(till_termination=True)
+        m.run_model(till_termination=True)
     except Exception as e:
         lab = classify_rejection(e)
         if lab:
@@ -67,22 +66,21 @@ def evaluate(case):
     deep0 = float(kw["soil"].zSoil)
     for n, op in enumerate(ops, start=1):
         try:
-            with init_guard():
-                if op == "rerun_same_model":
-                    m.run_model(till_termination=True)
-                    cur = m
-                elif op == "new_model_same_objects":
-                    cur = AquaCropModel(**kw)
-                    cur.run_model(till_termination=True)
-                else:
-                    cur = AquaCropModel(**kw)
-                    cur._initialize()
-                    g = 0
-                    while not cur._clock_struct.model_is_finished:
-                        cur.run_model(num_steps=int(case["step"]), initialize_model=False)
-                        g += 1
-                        if g > 5000:
-                            raise RuntimeError("does not terminate")
+            if op == "rerun_same_model":
+                m.run_model(till_termination=True)
+                cur = m
+            elif op == "new_model_same_objects":
+                cur = AquaCropModel(**kw)
+                cur.run_model(till_termination=True)
+            else:
+                cur = AquaCropModel(**kw)
+                cur._initialize()
+                g = 0
+                while not cur._clock_struct.model_is_finished:
+                    cur.run_model(num_steps=int(case["step"]), initialize_model=False)
+                    g += 1
+                    if g > 5000:
+                        raise RuntimeError("does not terminate")
         except Exception as e:
             res.fail("rerun_raises:" + op, "run %d (%s) over the same input objects raises %s: %s" % (n + 1, op, type(e).__name__, str(e)[:120]))
             break
